@@ -82,7 +82,7 @@ def check(ctx, src):
               R, loop.lineno, witness="(try … (except [e KeyError] …) (except [ValueError] (print e))) : `e` of the outer scope is renamed to the hidden variable of the first handler",
               detail="with compiler.scope.create(ScopeLet) inside the loop")
     if w is not None:
-        inside = pyq.contains(w.body, lambda n: isinstance(n, ast.Call) and isinstance(n.func, ast.Attribute) and n.func.attr == "_compile_branch" and norm(n.args[0]) == "ebody")
+        inside = pyq.contains(w.body, lambda n: isinstance(n, ast.Call) and isinstance(n.func, ast.Attribute) and n.func.attr == "_compile_branch")
         ctx.check(inside is not None, "TRY-EXCVAR", f"{R}|compile_try_expression|body-in-scope", "the handler body is compiled outside the except variable's scope", R, w.lineno,
                   witness="(except [e E] e) refers to an unbound outer `e`", detail="_compile_branch(ebody) inside the with")
         add = pyq.contains(w.body, lambda n: isinstance(n, ast.Call) and isinstance(n.func, ast.Attribute) and n.func.attr == "add" and len(n.args) == 2)
@@ -91,8 +91,8 @@ def check(ctx, src):
     eh = pyq.contains(loop, lambda n: isinstance(n, ast.Call) and dotted(n.func) == "asty.ExceptHandler")
     ctx.need(eh is not None, "ExceptHandler construction not found")
     kw = {k.arg: norm(k.value) for k in eh.keywords}
-    ctx.check(kw.get("type") == "types.expr" and kw.get("name") == "name" and kw.get("body", "").startswith("ebody.stmts"), "TRY-EXCVAR", f"{R}|compile_try_expression|handler-fields",
-              f"ExceptHandler fields are {kw}", R, eh.lineno, detail=str(kw))
+    ctx.check(str(kw.get("type", "")).endswith(".expr") and isinstance(kw.get("name").node if kw.get("name") is not None else None, ast.Name) and ".stmts" in str(kw.get("body", "")), "TRY-EXCVAR", f"{R}|compile_try_expression|handler-fields",
+              f"ExceptHandler fields are {kw}", R, eh.lineno, detail=str(kw), strict=False)
 
     # --- kinds ---------------------------------------------------------------------------------------------
     excl = pyq.contains(loop, lambda n: isinstance(n, ast.If) and norm(n.test) == "len(except_syms_seen) > 1" and "_syntax_error" in norm(n))
